@@ -275,14 +275,11 @@ def gen_yaml_doc(rng):
     bx, bs, bv = gen_map(rng, 1), [gen_val(rng, 2) for _ in range(rng.choice([0, 1, 2, 3]))], rng.choice(SCALARS)
     for side, other in ((a, b), (b, a)):
         maps = sub_maps(side, [])
-        omaps = {id(m): m for m in sub_maps(other, [])}
         for m in maps:
             for k in list(m):
                 r = rng.random()
                 if r < 0.12:
                     m[k] = Alias(rng.choice("xsv"))
-                elif r < 0.2 and isinstance(m[k], dict) and not isinstance(m[k], Alias):
-                    pass
             if rng.random() < 0.15:
                 m[MERGE] = Alias("x") if rng.random() < 0.7 else [Alias("x"), Alias("x")]
     # an alias exactly where the other operand has a container
@@ -291,8 +288,8 @@ def gen_yaml_doc(rng):
         if common and rng.random() < prob:
             k = rng.choice(common)
             if isinstance(other[k], dict):
-                if isinstance(side[k], dict) and not any(isinstance(x, Alias) or kk is MERGE for kk, x in side[k].items()) and rng.random() < 0.6:
-                    bx = json.loads(json.dumps(side[k], default=lambda o: None))
+                if isinstance(side[k], dict) and not contains_special(side[k]) and rng.random() < 0.6:
+                    bx = json.loads(json.dumps(side[k]))
                 side[k] = Alias("x")
             else:
                 side[k] = Alias("s")
